@@ -29,7 +29,7 @@ Definition exn_eqb (a b : exn) : bool :=
   | ValueError, ValueError | TypeError, TypeError | KeyError, KeyError | IndexError, IndexError
   | AssertionError, AssertionError | ZeroDivisionError, ZeroDivisionError
   | RuntimeError, RuntimeError | NotImplementedError, NotImplementedError
-  | UnboundLocalError, UnboundLocalError => true
+  | UnboundLocalError, UnboundLocalError | BadDraw, BadDraw => true
   | _, _ => false
   end.
 Definition chk_res {A} (f : A -> A -> bool) (m e : res A) : bool :=
